@@ -66,6 +66,19 @@ def inTets (Ts : List (Tet α)) (p : V3 α) : Bool := Ts.any fun T => inTet T p
 /-- number of tetrahedra of `Ts` that contain `p` -/
 def countTets (Ts : List (Tet α)) (p : V3 α) : Nat := (Ts.filter fun T => inTet T p).length
 
+/-! ### the vertical line through `p` and a triangle (geometric reading of the winding code) -/
+
+/-- planar orientation determinant of the projections of `u − p`, `v − p` to the `xy` plane -/
+def cross2 (p u v : V3 α) : α := (u.x - p.x) * (v.y - p.y) - (u.y - p.y) * (v.x - p.x)
+
+/-- the vertical line through `p` meets the open triangle `t` (same-side test in the `xy` plane) -/
+def pierces (p : V3 α) (t : Tri α) : Bool :=
+  (decide (lit 0 < cross2 p t.a t.b) && decide (lit 0 < cross2 p t.b t.c) && decide (lit 0 < cross2 p t.c t.a)) ||
+  (decide (cross2 p t.a t.b < lit 0) && decide (cross2 p t.b t.c < lit 0) && decide (cross2 p t.c t.a < lit 0))
+
+/-- orientation of the triangle as seen from `p`: `det (a − p, b − p, c − p)` -/
+def seenFrom (p : V3 α) (t : Tri α) : α := V3.det3 (t.a - p) (t.b - p) (t.c - p)
+
 /-! ### certificates (evaluated exactly over ℚ by the driver) -/
 
 /-- maximum of a list (`0` for the empty list) -/
